@@ -241,6 +241,18 @@ class C05(Prop):
         ops = gen.gen_history(rng, cfg, n, self.REQS, self.WEIGHTS,
                               fault_p=0.7, death_p=0.2,
                               second_req_kinds=self.SECOND)
+        for op in ops:
+            # numbers that are no numbers: whatever the daemon makes of them,
+            # it must not end up waiting, or killing, without end
+            if op['op'] == 'req' and op['cmd'] == 'kill' and \
+                    rng.random() < 0.1:
+                op['props']['graceful_timeout'] = rng.choice(['@nan', '@nan',
+                                                              -1, 1e-9])
+            if op['op'] == 'req' and op['cmd'] == 'set' and \
+                    rng.random() < 0.15:
+                op['props']['options'] = {
+                    rng.choice(['graceful_timeout', 'warmup_delay']):
+                    rng.choice(['@nan', '@nan', -1, -0.5])}
         if rng.random() < 0.15:
             gen.add_on_demand(rng, cfg, ops)
         if rng.random() < 0.3:
